@@ -420,6 +420,17 @@ func (e fixEvaluator) Halves(op0, opOut *rlwe.Ciphertext) {
 	}
 }
 
+// RANGEIDX control, helper form: the loop lives in a helper and no caller relates the degrees
+func rangeIdxHelperHalve(r *ring.Ring, src, dst *rlwe.Ciphertext) {
+	for i := range dst.Value {
+		r.MulScalar(src.Value[i], 2, dst.Value[i])
+	}
+}
+
+func (e fixEvaluator) HalvesVia(op0, opOut *rlwe.Ciphertext) {
+	rangeIdxHelperHalve(e.r, op0, opOut)
+}
+
 // ROUNDBITS control: digit count from a rounded logarithm
 func digitsVectorSize(q uint64, w int) int {
 	return (int(math.Round(math.Log2(float64(q)))) + w - 1) / w
@@ -1014,6 +1025,21 @@ func constTerm(g coefGetter, ps [][]uint64, mapping map[int][]int) (single uint6
 		vec = g.GetVectorCoefficient(ps, 0)
 	}
 	return
+}
+
+// VECSINGLE control, flag form: the test is kept in a boolean and the single accessor serves the constant term of both arms
+func constTermFlag(g coefGetter, ps [][]uint64, mapping map[int][]int, k int) (single uint64, vec []uint64) {
+	isVector := mapping != nil
+	coefficient := func(k int) (uint64, []uint64) {
+		if isVector && k != 0 {
+			return 0, g.GetVectorCoefficient(ps, k)
+		}
+		return g.GetSingleCoefficient(ps[0], k), nil
+	}
+	if !isVector {
+		return coefficient(k)
+	}
+	return coefficient(k)
 }
 
 // INITIDX control: the accumulator is initialised in iteration 0 only if bit 0 is set
